@@ -47,7 +47,7 @@ CHECKS["C10"] = dict(
     design_ref="DESIGN.md section 3, C09/C10",
 )
 
-_RES_NOTE = "Bounds: lists of 3 (quick) / 4 (thorough) citations over 9 abstract kinds (quick C07/C08 add the 4-citation slices over {full case, short} and {full case, supra}); volumes, reporters, guessed editions, pages, party names, antecedents, pin cites and token indexes symbolic (integers unbounded). Stubs: hash_sha256 injective; strip_punct identity (names without punctuation); re.match on the pin cite by contract. Trusted: interpreter (self-tested on extracted documents each run), z3, the reference model in vf/harness/c06.py."
+_RES_NOTE = "Bounds: lists of 3 citations over 9 abstract kinds (quick C07/C08 add the 4-citation slices over {full case, short} and {full case, supra}; thorough adds optional party names / reference name fields at length 3 and every 4-citation list over the 5-6 kinds the property is about - all 9 kinds at length 4 are 1.7 million paths, 67 minutes, per property); volumes, reporters, guessed editions, pages, party names, antecedents, pin cites and token indexes symbolic (integers unbounded). Stubs: hash_sha256 injective; strip_punct identity (names without punctuation); re.match on the pin cite by contract. Trusted: interpreter (self-tested on extracted documents each run), z3, the reference model in vf/harness/c06.py."
 CHECKS["C06"] = dict(
     engine="symex", category="other",
     text="Bounded symbolic verification of the real resolve_citations and citation/Resource hash+eq source: on every feasible path the mapping's values are disjoint ordered sub-sequences of the input led by a full citation, every full citation is under exactly one resource, unknown citations never appear, and two full citations share a resource iff the specification equality (volume, page, normalised reporter, no placeholder page - for journal citations too) holds - a z3 validity query per path; a history phase corrects a resolved citation's page through its public groups and resolves again (the grouping must follow).",
@@ -142,7 +142,7 @@ CHECKS["C01"] = dict(
 CHECKS["C05"] = dict(
     engine="symex", category="other",
     text="PARTIAL (resolution half). Bounded symbolic verification of the real resolver on scenario lists (cases with pairwise non-overlapping party names, each cited in full once or repeatedly; short/supra references written to a ghost intended antecedent; id. with no/numeric/non-numeric pin cite): exactly one resource per case, every reference that is unambiguous by the property's criteria is grouped with its intended case, an id. with an impossible pin cite or after an unresolved citation is left out - z3 validity queries per path, counter-models replayed as real citation objects.",
-    note="NOT decided: that extraction produces those citation objects from running text (needs the regex engines end to end; its pieces are C01/C02/C17). Bounds: lists of 4 (quick) / 5 (thorough) citations; a case may be cited in full repeatedly. Stubs as in C06.",
+    note="NOT decided: that extraction produces those citation objects from running text (needs the regex engines end to end; its pieces are C01/C02/C17). Bounds: lists of 4 citations over full/short/supra/id (thorough adds 5 citations over full/short/id); a case may be cited in full repeatedly. Stubs as in C06.",
     technique=SYMEX, design_ref="DESIGN.md section 3, C05",
 )
 
